@@ -111,6 +111,12 @@ def cases(tier, seed, focus=None):
         if rng_z.random() < 0.4:
             spec["pref"] = "distinct"
         out.append({"agg": spec, "mat": {"kind": "ternary", "m": m, "n": n, "seed": 0, "code": code, "dtype": "float64", "scale": 1.0}})
+    # ---- CAGrad on imbalanced matrices whose conflict sits in a weak direction
+    rng_c = random.Random(40900 + seed)
+    for j in range(40 if tier == "quick" else 600):
+        out.append({"agg": {"name": "CAGrad", "c": rng_c.choice([1.0, 1.0, 1.2, 2.0]), "norm_eps": 1e-4},
+                    "mat": {"kind": "weakdir", "m": rng_c.choice([3, 3, 4]), "n": rng_c.choice([2, 2, 3, 5]), "seed": rng_c.randrange(10**6),
+                            "dtype": "float64", "scale": 1.0}})
     # ---- random part
     n_rand = 500 if tier == "quick" else 16000
     n_wide = 300 if tier == "quick" else 8000
